@@ -70,7 +70,10 @@ const (
 )
 
 // PB builds a package body the way Package.c does (big-endian).
-type PB struct{ B []byte }
+type PB struct {
+	B     []byte
+	Marks []int // offsets of the length prefixes of the Bytes / Str / WStr fields added so far
+}
 
 func (p *PB) Int32(v uint32) *PB {
 	p.B = binary.BigEndian.AppendUint32(p.B, v)
@@ -87,6 +90,7 @@ func (p *PB) Bool(v bool) *PB {
 	return p.Int32(0)
 }
 func (p *PB) Bytes(b []byte) *PB {
+	p.Marks = append(p.Marks, len(p.B))
 	p.Int32(uint32(len(b)))
 	p.B = append(p.B, b...)
 	return p
